@@ -690,10 +690,14 @@ def register_walk_general(R):
         m, nd, pd = stk(v)
         return z3.ForAll([i], z3.Implies(z3.And(i >= 0, i < m, nd(i) != 0), pd(i) == pid_of(E, nd(i))), patterns=pats(v, nd(i)))
 
-    def j_counts(E, v, o):
+    def j_cursor(E, v, o):
         c = cur_ref(E, v)
         m, _, _ = stk(v)
-        return z3.And(m >= 0, c >= G(E, "R0"), c <= E0(E), to_z3(CL(E)["next_id"], "int") == G(E, "s0") + W.W_RK(c),
+        return z3.And(m >= 0, c >= G(E, "R0"), c <= E0(E))
+
+    def j_counts(E, v, o):
+        c = cur_ref(E, v)
+        return z3.And(to_z3(CL(E)["next_id"], "int") == G(E, "s0") + W.W_RK(c),
                       *[CL(E)["ndata"].items[getattr(names, col)].nz() == G(E, "L0") + W.W_RK(c) for col in COLS7])
 
     def j_rows(col):
@@ -740,9 +744,28 @@ def register_walk_general(R):
                    "entries-above-the-marker-lie-in-a-tree", "entry-inside-a-tree-sees-that-trees-type-on-top", "entries-below-the-marker-are-nodes-outside-any-tree",
                    "callers-types-untouched"]
     INV = ([("stack-is-the-pending-part-of-the-document-in-order", j_stack), ("stack-entries-carry-the-id-of-their-parent-point", j_pid),
-            ("ids-and-row-count-follow-the-points-passed", j_counts), ("earlier-rows-untouched", j_old_rows)]
+            ("next-pending-node-lies-in-the-document", j_cursor), ("ids-and-row-count-follow-the-points-passed", j_counts), ("earlier-rows-untouched", j_old_rows)]
            + [(f"row-of-every-point-passed/{c}", j_rows(c)) for c in COLS7]
            + [(lab, part(j_types, k)) for k, lab in enumerate(type_labels)])
+
+    # ---- proof steps (each its own obligation): what popping a node does to the position in the document
+    def step_hint(E, vars):
+        if "node" not in vars or STACK not in vars or not isinstance(vars["node"], Sym):
+            return
+        nd = to_z3(vars["node"], "oref")
+        E.prove("NeurolucidaAscToSwc.from_ast.<locals>.walk_ast/loop0/step/the-next-pending-node-is-the-one-behind-the-node-just-taken",
+                z3.Implies(nd != 0, cur_ref(E, vars) == nd + 1), "annotation")
+        E.prove("NeurolucidaAscToSwc.from_ast.<locals>.walk_ast/loop0/step/rank-behind-the-node-just-taken",
+                z3.Implies(nd != 0, W.W_RK(nd + 1) == W.W_RK(nd) + z3.If(W.W_KIND(nd) == NODE(), 1, 0)), "annotation")
+        # the counting clause itself, from the quantifier-free facts of the path only (sound: a subset of the hypotheses); the clause
+        # obligation that follows is then the very same term
+        from pyvc.engine import Oblig, _has_quant
+
+        if z3.is_true(z3.simplify(nd != 0)) or any(h.eq(z3.simplify(nd != 0)) or h.eq(z3.Not(nd == 0)) for h in E.pc):
+            goal = z3.simplify(j_counts(E, vars, None))
+            E.obligs.append(Oblig(f"{E.prop}/NeurolucidaAscToSwc.from_ast.<locals>.walk_ast/loop0/step/counts-after-taking-a-node", [h for h in E.pc if not _has_quant(h)], goal,
+                                  "annotation", "annotation"))
+            E.pc.append(goal)
 
     # ---- postconditions
     def post_rows(col):
@@ -770,7 +793,7 @@ def register_walk_general(R):
           ensures=[("exactly-one-row-per-point-and-ids-continue", post_counts), ("earlier-rows-untouched", j_old_rows), ("callers-type-stack-restored", post_typee)]
           + [(f"row-of-point-number-k-in-document-order-is-that-point/{c}", post_rows(c)) for c in COLS7],
           loops={0: dict(invariant=INV, types={STACK: ["oref", "int"]})},
-          options=dict(extend_hook=X.walk_extend_hook),
+          options=dict(extend_hook=X.walk_extend_hook, hints={"preserved/next-pending-node-lies-in-the-document": step_hint}),
           notes="ARBITRARY abstract AST in document order (symbolic size, depth, branch length); rows: id = first free id + number of points before, "
                 "type = label of the enclosing TREE (else the caller's current type), values = the point's, pid = id of the parent point or -1 (the given pid for the root)")
 
